@@ -78,6 +78,9 @@ func replayOne(rf *vstat.ReplayFile) string {
 	if rf.Part == "latency-irregular" {
 		return replayLatIrregular(rf)
 	}
+	if rf.Part == "nested" || rf.Part == "cache-latency" {
+		return replayN(rf)
+	}
 	if rf.Part == "parallel" {
 		return replayPar(rf)
 	}
